@@ -80,6 +80,18 @@ mut("c08-revert-selprot-rng", "C08", "pybrops/breed/prot/sel/SubsetSelectionProt
 mut("c08-hc-time-tiebreak", "C08", "pybrops/opt/algo/SteepestDescentSubsetHillClimber.py", "        gbest_soln = self.rng.choice(prob.decn_space, prob.ndecn)", "        import time\n        gbest_soln = self.rng.choice(prob.decn_space, prob.ndecn)\n        if int(time.time()) % 2: gbest_soln = gbest_soln[::-1].copy()", "start solution order depends on the wall clock")
 mut("c08-xconfig-cache", "C08", "pybrops/breed/prot/sel/cfg/SubsetSelectionConfiguration.py", "        outcross_shuffle(out, rng = self.rng)", "        outcross_shuffle(out, rng = self.rng if len(out) != 3 else None)", "three-cross configurations shuffled with the global stream")
 
+# ---------------------------------------------------------------- C16
+H5 = "pybrops/core/util/h5py.py"
+mut("c16-revert-h5-fix", "C16", H5, "            if (fieldname in h5file) and overwrite:\n                del h5file[fieldname]\n            continue", "            continue", "reverts the stale-field fix")
+mut("c16-writer-drops-field", "C16", "pybrops/popgen/gmat/DenseGenotypeMatrix.py", '            "vrnt_mask"         : self.vrnt_mask,\n            "ploidy"            : self.ploidy,', '            "ploidy"            : self.ploidy,', "vrnt_mask left out of the HDF5 writer")
+mut("c16-deepcopy-shares-mat", "C16", "pybrops/core/mat/DenseTaxaMatrix.py", "            mat = copy.deepcopy(self.mat, memo),\n            taxa = copy.deepcopy(self.taxa, memo),\n            taxa_grp = copy.deepcopy(self.taxa_grp, memo)", "            mat = copy.deepcopy(self.mat, memo),\n            taxa = copy.deepcopy(self.taxa, memo),\n            taxa_grp = self.taxa_grp", "deep copy shares taxa_grp with its source")
+mut("c16-copy-loses-group-metadata", "C16", "pybrops/core/mat/DenseTaxaMatrix.py", "        out.taxa_grp_len = copy.deepcopy(self.taxa_grp_len, memo)", "        out.taxa_grp_len = None if self.ntaxa == 3 else copy.deepcopy(self.taxa_grp_len, memo)", "group lengths dropped from deep copies of 3-taxon matrices")
+mut("c16-vcf-phase-swapped", "C16", "pybrops/popgen/gmat/DensePhasedGenotypeMatrix.py", "            mat.append(phases[:,0:2].copy())", "            mat.append(phases[:,1::-1].copy())", "VCF import swaps the two phases")
+mut("c16-vcf-name-from-pos", "C16", "pybrops/popgen/gmat/DenseGenotypeMatrix.py", "vrnt_name.append(str(variant.ID))", "vrnt_name.append(str(variant.ID) if variant.POS % 7 else str(variant.POS))", "variant id replaced by its position when POS is a multiple of 7")
+mut("c16-h5-reader-wrong-dtype", "C16", "pybrops/popgen/bvmat/DenseBreedingValueMatrix.py", 'data["scale"] = h5py_File_read_ndarray(h5file, groupname + "scale")', 'data["scale"] = h5py_File_read_ndarray(h5file, groupname + "scale").astype("float32").astype(float)', "scale read through float32", count=0)
+mut("c16-bv-csv-scaled", "C16", "pybrops/popgen/bvmat/DenseBreedingValueMatrix.py", "        df = self.to_pandas(", "        unscale = unscale and self.ntaxa != 2\n        df = self.to_pandas(", "to_csv ignores unscale for two-taxon matrices", count=0)
+mut("c16-vmat-pandas-transposed", "C16", "pybrops/model/vmat/DenseTwoWayDHAdditiveGeneticVarianceMatrix.py", "female_data   = df.iloc[:,female_colix  ].to_numpy(dtype = object)\n        male_data     = df.iloc[:,male_colix    ].to_numpy(dtype = object)", "female_data   = df.iloc[:,male_colix  ].to_numpy(dtype = object)\n        male_data     = df.iloc[:,female_colix    ].to_numpy(dtype = object)", "female/male columns exchanged by the reader")
+
 
 def run_one(m, runs, tier_args=()):
     scratch = "/dev/shm/pybrops-mut-%s-%d" % (m["id"], os.getpid())
